@@ -224,6 +224,7 @@ public:
     template <class InputIterator>
     void build_heap(InputIterator first, InputIterator last)
     {
+        clear_handles();
         heap_.assign(first, last);
         heapify();
     }
@@ -231,6 +232,7 @@ public:
     //! Builds a heap from the vector \c keys. Items of \c keys are copied.
     void build_heap(const std::vector<key_type>& keys)
     {
+        clear_handles();
         heap_.resize(keys.size());
         std::copy(keys.begin(), keys.end(), heap_.begin());
         heapify();
@@ -239,6 +241,7 @@ public:
     //! Builds a heap from the vector \c keys. Items of \c keys are moved.
     void build_heap(std::vector<key_type>&& keys)
     {
+        clear_handles();
         if (!empty())
             heap_.clear();
         heap_ = std::move(keys);
@@ -288,6 +291,13 @@ public:
     }
 
 private:
+    //! Marks the keys currently in the heap as not present.
+    void clear_handles()
+    {
+        for (const key_type& key : heap_)
+            handles_[key] = not_present();
+    }
+
     //! Returns the position of the left child of the node at position \c k.
     size_t left(size_t k) const
     {
